@@ -8,6 +8,15 @@ TRUST = ["Eigen dense self-adjoint eigen-solver, LU and MatrixFunctions::exp use
          "held on the executions observed only; nothing is claimed for inputs/schedules that were not run"]
 
 VH = {
+    "C18": dict(drivers=[dict(driver="index", flavours=P2, timeout=30)],
+                floor=dict(quick=200, thorough=6000),
+                rule="two kinds of cases. (A) bijection: random lattice (1-4 sites, hostile labels, 1-3 orbitals x 1-3 spins per site, ~60% heterogeneous, <=12 modes) x both ordering modes, "
+                     "each (lattice, mode) probed in a forked child (a crash is an observation); monitors compare size, getInfo, getIndex (both overloads), round trips, injectivity, surjectivity, "
+                     "out-of-range behaviour with the INPUT site list; non-trivial = >=2 sites and (heterogeneous or >=2 orbitals somewhere). "
+                     "(B) invariance: generated model built in default order, spin-major order (only if all sites have equal spin counts) and with injectively renamed sites; sorted spectrum, "
+                     "<n_i>, G_ij(i w_n) (n=0,1,-1,5; all pairs for N<=4, else diagonal + sample) must agree under the permutation read off the two classifications; G tolerance = sum of the two "
+                     "variants' derived truncation bounds (dropped residues / pole merging, as in C01); non-trivial = the induced permutation is not the identity for at least one variant; "
+                     "distinct by lattice description (A) / canonical model + renaming (B)"),
     "C04": dict(drivers=[dict(driver="presets", flavours=P2, timeout=60)],
                 floor=dict(quick=1200, thorough=24000),
                 rule="cases = schedule entry (every LatticePresets::add* overload/variant alone, every Term factory alone through addTerm, raw user terms of 2/4/6 operators by class, "
@@ -90,6 +99,10 @@ HOOK_COMMITS = ["541145e"]
 NOT_YET = {}
 
 INFO = {
+    "C18": dict(technique="runtime monitor on generated lattices: IndexClassification observed in a forked child vs the input site list (bijection), plus metamorphic relabelling / re-ordering relation on full ED results",
+                level_text="For thousands of generated lattices incl. heterogeneous orbital/spin counts and hostile labels, in both ordering modes, size, forward and inverse look-ups, injectivity, surjectivity and out-of-range behaviour are compared with the input; for generated models spectrum, occupancies and Green's functions are shown to change only by the induced index permutation when sites are renamed or the ordering mode is switched; held on what was run.",
+                level_note="Label-hash collisions in IndexInfo::operator< cannot be reached by running and are not covered; invariance part N <= 6 (quick: 25% of the models may reach 6, thorough: 50%), default partition only; heterogeneous spin-major ordering is covered by the bijection part only.",
+                design_ref="DESIGN.md section 3, C18"),
     "C04": dict(technique="runtime oracle monitor: Hamiltonian built by the library (IndexHamiltonian monomials and HamiltonianPart matrix, symmetries ignored) vs the documented operator written as dense Jordan-Wigner matrices",
                 level_text="Every LatticePresets function and overload, every Term factory and raw user terms of 2, 4 and 6 operators (incl. Pauli-vanishing, number-non-conserving and mutually cancelling ones) are applied alone and in random sums to generated lattices; the resulting operator is compared element by element with an independent transcription of the header documentation, its Hermiticity and (Kanamori U'=U-2J, spin-spin exchange) its commutation with total S+- are monitored; held on what was run.",
                 level_note="Trusts the harness's Jordan-Wigner construction and IndexClassification::getIndex (subject of another property); N <= 6 (8 for two equal multi-orbital sites) quick / 8 thorough.",
